@@ -355,7 +355,26 @@ Section Append.
     | ([PN n'], _) => Some n'
     | _ => None
     end.
+  (* strip_tags when the element itself is stripped (e.g. Span.remove_spans()): the pieces — own text, children, own
+     tail — are embedded in a fresh default element (text:p, attributes [a0]) with __append (repaired code, fixes/F105;
+     the pinned code assigned every string piece to new.text, keeping only the last one) *)
+  Definition strip_default (a0 : nat) (sp : kind -> bool -> bool) (pr : kind -> bool) (n : node) : option node :=
+    match strip_ sp pr false n with
+    | ([PN n'], false) => Some n'
+    | (ps, true) => if sp (kind_of n) (match n with Node _ _ s _ _ _ => s end)
+                    then let '(tx, ks) := fold_left append_piece ps (None, []) in Some (Node KP a0 false tx ks None)
+                    else match ps with [PN n'] => Some n' | _ => None end
+    | _ => None
+    end.
 End Append.
+(* PINNED code of that case, kept for the refutation (F105): [new.text = content] for every string piece *)
+Definition strip_default_pinned (a0 : nat) (sp : kind -> bool -> bool) (pr : kind -> bool) (n : node) : option node :=
+  match strip_ collapse sp pr false n with
+  | (ps, true) =>
+      let '(tx, ks) := fold_left (fun st p => match p with PS s => (Some s, snd st) | PN c => (fst st, snd st ++ [c]) end) ps (None, []) in
+      Some (Node KP a0 false tx ks None)
+  | _ => None
+  end.
 Definition strip_tags_ (kinds : list kind) (protect_h : bool) (n : node) : option node :=
   strip_top collapse (fun k _ => existsb (kind_eqb k) kinds) (fun k => protect_h && kind_eqb k KH) n.
 Definition strip_elements_ (n : node) : option node :=
@@ -514,6 +533,7 @@ Inductive op :=
 | ODelete2 (j i : nat)                                            (* Annotation.delete / ReferenceMarkStart.delete: end mark j first *)
 | OStripTags (kinds : list kind) (protect_h : bool)               (* remove_spans / remove_links / strip_tags *)
 | OStripElems                                                     (* remove_span / remove_link / strip_elements: elements marked [sel] *)
+| OStripDefault (kinds : list kind) (protect_h : bool) (a0 : nat)   (* strip_tags on an element that is itself stripped *)
 | OSame.
 (* [None] = the call raises and nothing is modified *)
 Definition step (o : op) (n : node) : option (list ev) :=
@@ -527,6 +547,7 @@ Definition step (o : op) (n : node) : option (list ev) :=
   | ODelete2 j i => match delete_ j true c with Some c' => delete_ i true c' | None => None end
   | OStripTags ks ph => option_map content (strip_tags_ ks ph n)
   | OStripElems => option_map content (strip_elements_ n)
+  | OStripDefault ks ph a0 => option_map content (strip_default collapse a0 (fun k _ => existsb (kind_eqb k) ks) (fun k => ph && kind_eqb k KH) n)
   | OSame => Some c
   end.
 
